@@ -15,15 +15,21 @@ func TypePriority(rr dns.RR) uint32 {
 	switch v := rr.(type) {
 	case *dns.NULL:
 		// first two bytes represent the order
-		return 10000 + uint32(binary.LittleEndian.Uint16([]byte(v.Data[0:2])))
+		if len(v.Data) >= 2 {
+			return 10000 + uint32(binary.LittleEndian.Uint16([]byte(v.Data[0:2])))
+		}
 	case *dns.PrivateRR:
 		// first two bytes represent the order
-		return 20000 + uint32(binary.LittleEndian.Uint16([]byte(v.Data.String()[0:2])))
+		if d := v.Data.String(); len(d) >= 2 {
+			return 20000 + uint32(binary.LittleEndian.Uint16([]byte(d[0:2])))
+		}
 	case *dns.TXT:
 		// First two characters represent the byte order
-		i1 := enc.Base32CharToInt(v.Txt[0][0])
-		i2 := enc.Base32CharToInt(v.Txt[0][1])
-		return 30000 + uint32(i1+i2*32)
+		if len(v.Txt) > 0 && len(v.Txt[0]) >= 2 {
+			i1 := enc.Base32CharToInt(v.Txt[0][0])
+			i2 := enc.Base32CharToInt(v.Txt[0][1])
+			return 30000 + uint32(i1+i2*32)
+		}
 	case *dns.MX:
 		// Use Preference for order
 		return 40000 + uint32(v.Preference)
@@ -32,18 +38,24 @@ func TypePriority(rr dns.RR) uint32 {
 		return 50000 + uint32(v.Priority)
 	case *dns.CNAME:
 		// First two characters represent the order
-		i1 := enc.Base32CharToInt(v.Target[0])
-		i2 := enc.Base32CharToInt(v.Target[1])
-		return 60000 + uint32(i1+i2*32)
+		if len(v.Target) >= 2 {
+			i1 := enc.Base32CharToInt(v.Target[0])
+			i2 := enc.Base32CharToInt(v.Target[1])
+			return 60000 + uint32(i1+i2*32)
+		}
 	case *dns.AAAA:
 		// First two bytes represent the order
-		return 70000 + uint32(binary.LittleEndian.Uint16(v.AAAA[0:2]))
+		if len(v.AAAA) >= 2 {
+			return 70000 + uint32(binary.LittleEndian.Uint16(v.AAAA[0:2]))
+		}
 	case *dns.A:
 		// First byte represent the order
-		return 80000 + uint32(v.A[0])
+		if len(v.A) >= 1 {
+			return 80000 + uint32(v.A[0])
+		}
 	}
 
-	// Unknown response type
+	// Unknown response type, or a record too short to carry an order tag
 	return 90000
 }
 
@@ -428,37 +440,62 @@ func UnwrapDnsResponse(q *dns.Msg, domain string) []byte {
 		return TypePriority(answers[i]) < TypePriority(answers[j])
 	})
 
+	// stripDomain removes the trailing ".<domain>." from a target name; names that do not carry it hold no data
+	stripDomain := func(data string) (string, bool) {
+		l := len(data) - len(domain) - 2
+		if l < 0 {
+			return "", false
+		}
+		return data[0:l], true
+	}
+
 	for _, rr := range answers {
 		switch v := rr.(type) {
 		case *dns.NULL:
 			// Remove first two bytes
-			resp = append(resp, []byte(v.Data[2:])...)
+			if len(v.Data) >= 2 {
+				resp = append(resp, []byte(v.Data[2:])...)
+			}
 		case *dns.PrivateRR:
 			// Remove first two bytes
-			resp = append(resp, []byte(v.Data.String()[2:])...)
+			if d := v.Data.String(); len(d) >= 2 {
+				resp = append(resp, []byte(d[2:])...)
+			}
 		case *dns.TXT:
-			resp = append(resp, Unescape(strings.Join(v.Txt, ""))[2:]...)
+			if d := Unescape(strings.Join(v.Txt, "")); len(d) >= 2 {
+				resp = append(resp, d[2:]...)
+			}
 		case *dns.MX:
-			data := v.Mx                             // Nothing to remove, Preference takes care of it
-			data = data[0 : len(data)-len(domain)-2] // remove domain
-			data = Undotify(data)                    // Remove dots
-			resp = append(resp, Unescape(data)...)
+			// Nothing to remove, Preference takes care of it
+			if data, ok := stripDomain(v.Mx); ok {
+				data = Undotify(data) // Remove dots
+				resp = append(resp, Unescape(data)...)
+			}
 		case *dns.SRV:
-			data := v.Target                         // Nothing to remove, Priority takes care of it
-			data = data[0 : len(data)-len(domain)-2] // remove domain
-			data = Undotify(data)                    // Remove dots
-			resp = append(resp, Unescape(data)...)
+			// Nothing to remove, Priority takes care of it
+			if data, ok := stripDomain(v.Target); ok {
+				data = Undotify(data) // Remove dots
+				resp = append(resp, Unescape(data)...)
+			}
 		case *dns.CNAME:
-			data := v.Target[2:]                     // Remove first two characters
-			data = data[0 : len(data)-len(domain)-2] // remove domain
-			data = Undotify(data)                    // Remove dots
-			resp = append(resp, Unescape(data)...)
+			if len(v.Target) < 2 {
+				continue
+			}
+			// Remove first two characters
+			if data, ok := stripDomain(v.Target[2:]); ok {
+				data = Undotify(data) // Remove dots
+				resp = append(resp, Unescape(data)...)
+			}
 		case *dns.AAAA:
 			// Remove first two bytes
-			resp = append(resp, v.AAAA[2:]...)
+			if len(v.AAAA) >= 2 {
+				resp = append(resp, v.AAAA[2:]...)
+			}
 		case *dns.A:
 			// Remove first byte
-			resp = append(resp, v.A[1:]...)
+			if len(v.A) >= 1 {
+				resp = append(resp, v.A[1:]...)
+			}
 		}
 	}
 
